@@ -184,6 +184,18 @@ func walFacts() {
 		"server/wal/readwrite_segment.go: (*readWriteSegment).Append, clearNextRecordSize",
 		"after the record is written and the file offset advanced, the size field at the new end of the log is zeroed")
 
+	// the file of a read-write segment is given its size not only when it is new but whenever it is shorter than
+	// the segment (a crash can leave the file without its size); the mapping never reaches behind the end of the file
+	nrw := funcDecl(rwf, "", "newReadWriteSegment")
+	nrwb := ""
+	if nrw != nil {
+		nrwb = squash(src(nrw.Body))
+	}
+	iSz := strings.Index(nrwb, "if !c.segmentExists || fileInfo.Size() < int64(segmentSize) { if err = initFileWithZeroes(ms.txnFile, segmentSize); err != nil {")
+	iMap := strings.Index(nrwb, "mmap.MapRegion(ms.txnFile, int(segmentSize), mmap.RDWR, 0, 0)")
+	add("walSegmentFileSizeEnsured", "Bool", boolLean(iSz >= 0 && iMap > iSz && strings.Contains(nrwb, "fileInfo, err := ms.txnFile.Stat()")),
+		"server/wal/readwrite_segment.go: newReadWriteSegment", fmt.Sprintf("size check at %d, mapping at %d", iSz, iMap))
+
 	// LastOffset() reports the synced offset
 	lo := funcDecl(w, "wal", "LastOffset")
 	synced := lo != nil && strings.Contains(squash(src(lo.Body)), "return t.lastSyncedOffset.Load()")
